@@ -248,6 +248,25 @@ fn p2_programs(tier: Tier) -> Vec<Program> {
     pack("tuple1", Kind::Tuple(vec![FieldTy::U8]), literals(&["0"], if th { 3 } else { 2 }, true, true), &mut out);
     pack("tuple2", Kind::Tuple(vec![FieldTy::I32, FieldTy::SStr]), literals(&["0", "1"], if th { 4 } else { 3 }, true, th), &mut out);
     pack("tuple3", Kind::Tuple(vec![FieldTy::U8, FieldTy::I32, FieldTy::SStr]), literals(&["0", "1", "2"], if th { 4 } else { 3 }, true, false), &mut out);
+    // width / precision taken from ANOTHER field (`1$`, `w$`, `.*` is not available for explicit positions)
+    let us = FieldTy::Raw("usize".into(), "0".into());
+    pack(
+        "tuple3 nested width/precision args",
+        Kind::Tuple(vec![FieldTy::SStr, us.clone(), us.clone()]),
+        ["{0:>1$.2$}", "[{0:>1$}]{2}", "{0:.2$}|{1}", "{2}{0:^1$}", "{0:1$}{0:.2$}", "{1:>2$}{0}", "{0:*<1$}{2:03}", "{0:>1$}{{{2}}}"].iter().map(|s| s.to_string()).collect(),
+        &mut out,
+    );
+    pack("tuple2 nested width arg only", Kind::Tuple(vec![FieldTy::I32, us.clone()]), ["{0:>1$}", "[{0:<1$}]", "{0:01$}", "{0:+1$}"].iter().map(|s| s.to_string()).collect(), &mut out);
+    pack(
+        "named{s,w,p} nested width/precision args",
+        Kind::Named(vec![
+            NamedField { name: "s".into(), ty: FieldTy::SStr, default_with: false },
+            NamedField { name: "w".into(), ty: us.clone(), default_with: false },
+            NamedField { name: "p".into(), ty: us.clone(), default_with: false },
+        ]),
+        ["{s:>w$}", "{s:.p$}", "{s:>w$.p$}", "{w}{s:^w$}", "{s:w$}|{p}", "{s:-<w$}{s:.p$}"].iter().map(|s| s.to_string()).collect(),
+        &mut out,
+    );
     // SCALE: 12 fields — two-digit positional indices, field names that are prefixes / extensions of one another.
     // Tuple literals end with every index once (format! itself rejects unused positional arguments).
     let tys = [FieldTy::U8, FieldTy::I32, FieldTy::SStr];
@@ -286,6 +305,8 @@ fn payload_expr(ty: &FieldTy, j: usize) -> String {
         (FieldTy::I32, _) => "i32::MAX".into(),
         (FieldTy::SStr, 0) => "\"\"".into(),
         (FieldTy::SStr, _) => "\"é{q}\"".into(),
+        (FieldTy::Raw(t, _), 0) if t == "usize" => "0usize".into(),
+        (FieldTy::Raw(t, _), _) if t == "usize" => "7usize".into(),
         _ => "Default::default()".into(),
     }
 }
@@ -301,6 +322,22 @@ fn used_names(l: &str) -> Vec<String> {
         let name = inner.split(':').next().unwrap_or("").to_string();
         if !out.contains(&name) {
             out.push(name);
+        }
+        // `name$` / `N$` references inside the spec use an argument too
+        if let Some(spec_part) = inner.splitn(2, ':').nth(1) {
+            let cs: Vec<char> = spec_part.chars().collect();
+            for (k, c) in cs.iter().enumerate() {
+                if *c == '$' {
+                    let mut st = k;
+                    while st > 0 && (cs[st - 1].is_alphanumeric() || cs[st - 1] == '_') {
+                        st -= 1;
+                    }
+                    let arg: String = cs[st..k].iter().collect();
+                    if !arg.is_empty() && !out.contains(&arg) {
+                        out.push(arg);
+                    }
+                }
+            }
         }
         rest = &rest[(b + 1).min(rest.len())..];
     }
